@@ -193,3 +193,92 @@ def ed_sign_parts(seed, msg):
 
 def enc_mul_base(s):
     return ed_encode(_ed_mul(s, BASE))
+
+
+# ---- result-directed input crafting (input selection only): operands chosen so that the *result* of a field operation, or of a whole
+# ---- X25519 computation, is a boundary value of the representations (small, just below p, around 2^25k / 2^26k / 2^51k, low limb nearly full)
+def result_targets(rng, per_band=2):
+    t = set(range(0, 41)) | {P - k for k in range(1, 41)}
+    for j in (25, 26, 51, 102, 128, 153, 204, 230, 252, 254):
+        for d in range(-20, 21):
+            t.add((2 ** j + d) % P)
+    for w in (25, 26, 51, 102):
+        for s in (1, 2, 14, 15, 18, 19, 20):
+            for _ in range(per_band):
+                t.add(((rng.getrandbits(255 - w) << w) | ((1 << w) - s)) % P)
+    return sorted(t)
+
+
+def fe_sqrt(t):
+    """a square root of t modulo p, or None"""
+    t %= P
+    x = pow(t, (P + 3) // 8, P)
+    if (x * x - t) % P:
+        x = x * SQRTM1 % P
+    return x if (x * x - t) % P == 0 else None
+
+
+def fe_enc(v, rng, noncanonical=True):
+    """an encoding of v: canonical, or v + p when that fits in 255 bits, with or without the ignored top bit"""
+    v %= P
+    if noncanonical and v + P < (1 << 255) and rng.random() < 0.5:
+        v += P
+    return le32(v | ((1 << 255) if rng.random() < 0.25 else 0))
+
+
+def fe_operands_for(op, t, rng):
+    """operand values (integers mod p) such that op(operands) = t, or None"""
+    x = rng.randrange(2, P)
+    inv = lambda a: pow(a, P - 2, P)
+    if op == "mul":
+        return [x, t * inv(x) % P]
+    if op == "add":
+        return [x, (t - x) % P]
+    if op == "sub":
+        return [x, (x - t) % P]
+    if op == "neg":
+        return [(-t) % P]
+    if op == "square":
+        r = fe_sqrt(t)
+        return None if r is None else [r if rng.random() < 0.5 else P - r]
+    if op == "square_and_double":
+        r = fe_sqrt(t * inv(2) % P)
+        return None if r is None else [r if rng.random() < 0.5 else P - r]
+    if op == "invert":
+        return None if t % P == 0 else [inv(t)]
+    raise ValueError(op)
+
+
+A_MONT = 486662
+
+
+def x25519_preimage(v, kbytes):
+    """u such that X25519(k, u) = v, for v the u-coordinate of a point of prime order on curve25519 (None if v is not one):
+    Q = the point with u(Q) = v, u = u([k^-1 mod L] Q) with k the clamped scalar"""
+    v %= P
+    if v in (0, 1, P - 1) or fe_sqrt((v * v * v + A_MONT * v * v + v) % P) is None:
+        return None
+    y = (v - 1) * pow(v + 1, P - 2, P) % P                  # birational map to edwards25519
+    x = ed_recover_x(y, 0)
+    if x is None:
+        return None
+    q = (x, y)
+    if _ed_mul(L, q) != (0, 1):
+        return None
+    k = int.from_bytes(clamp(bytes(kbytes)), "little")
+    q2 = _ed_mul(pow(k, -1, L), q)
+    if q2[1] == 1:
+        return None
+    return (1 + q2[1]) * pow(1 - q2[1], P - 2, P) % P
+
+
+def x25519_result_targets(rng, n):
+    """n target values for the result of X25519: small integers >= 19, low 51 / 26 / 25 bits nearly full, just below p, around 2^51k"""
+    cands = list(range(19, 80)) + [P - k for k in range(1, 60)]
+    for w in (51, 26, 25, 102, 153, 204):
+        for s in range(1, 20):
+            cands.append(((rng.getrandbits(255 - w) << w) | ((1 << w) - s)) % P)
+        cands += [(2 ** w + d) % P for d in range(-19, 20)]
+    rng.shuffle(cands)
+    # keep a spread: a few of each family first
+    return cands[:n * 40]
